@@ -44,10 +44,16 @@ def universe(tier, rng):
                             if redirect == n and form in ("dollar", "object", "objectlazy") and fault != "redirect_unopenable":
                                 continue
                             scns.append({"kinds": list(kinds), "fault": fault, "at": at, "redirect": redirect, "form": form, "rop": ">" if (n + at) % 2 else ">>"})
+                        # the first stage reading a real input file (`cat < in.txt | ...`)
+                        if fault in ("none", "not_found", "alias_raises") and redirect in (0, n) and not (fault == "not_found" and at == 1):
+                            scns.append({"kinds": list(kinds), "fault": fault, "at": at, "redirect": redirect, "form": FORMS[(n + at + len(scns)) % 3], "rop": ">", "infile": True})
                         # the same shape started in the background (`... &`): the job ends on its own; nothing may stay behind
                         if redirect == 0 and fault in ("none", "not_found", "consumer_exits_early"):
                             scns.append({"kinds": list(kinds), "fault": fault, "at": at, "redirect": 0, "form": "background"})
     if tier == "quick":
+        for i, s in enumerate(scns):
+            if s["redirect"] and s["fault"] in ("none", "alias_raises", "consumer_exits_early") and i % 3 == 0:
+                s["rop"] = ("2>", "a>", "e>")[(i // 3) % 3]
         scns = [s for i, s in enumerate(scns) if s["fault"] != "none" or i % 2 == 0]
         # single-stage shapes with a fault are few and cheap: always kept
         always = lambda s: (len(s["kinds"]) == 1 and s["fault"] != "none") or (s["form"] == "background" and len(s["kinds"]) <= 2)
@@ -55,7 +61,7 @@ def universe(tier, rng):
         rest = [s for s in scns if not always(s)]
         scns = keep + rng.sample(rest, min(len(rest), 150))
     else:
-        scns += [dict(s, rop="2>") for s in scns if s["redirect"] and s["fault"] == "none"]
+        scns += [dict(s, rop=r) for s in scns if s["redirect"] and s["fault"] in ("none", "alias_raises", "consumer_exits_early") for r in ("2>", "a>", "e>")]
         scns += [dict(s, repeat=12) for s in scns if s["fault"] in ("not_found", "consumer_exits_early") and s["form"] in ("bare", "dollar")]
     return scns
 
@@ -67,7 +73,7 @@ def describe(t, matched):
 
 def slim(t):
     s = t["scn"]
-    return {"feat": {"n": len(s["kinds"]), "fault": s["fault"], "at": s["at"], "form": s["form"], "redirect": s["redirect"], "lastkind": s["kinds"][-1], "firstkind": s["kinds"][0], "aliasreader": "alias" in s["kinds"][1:]},
+    return {"feat": {"n": len(s["kinds"]), "fault": s["fault"], "at": s["at"], "form": s["form"], "redirect": s["redirect"], "infile": bool(s.get("infile")), "lastkind": s["kinds"][-1], "firstkind": s["kinds"][0], "aliasreader": "alias" in s["kinds"][1:]},
             "steps": [{"cmd": "run", "obs": {"clean": bool(t["steps"][0]["obs"]["clean"])}}]}
 
 
@@ -84,7 +90,7 @@ def run(tier, seed, replay=None):
         if mc.get("never_taken"):
             raise tlc.TLCError(f"vacuity: actions never taken in Resources: {mc['never_taken']}")
         selftest = {}
-        for dev in ("Dev_NotFoundLeaksEarlierStages", "Dev_EarlyExitLeavesProducer", "Dev_WriterKeptAfterProducerExit", "Dev_BackgroundKeepsConnectingPipes", "Dev_BackgroundAliasKeepsPipes"):
+        for dev in ("Dev_RedirectFailureLeaks", "Dev_NotFoundLeaksEarlierStages", "Dev_EarlyExitLeavesProducer", "Dev_WriterKeptAfterProducerExit", "Dev_BackgroundKeepsConnectingPipes", "Dev_BackgroundAliasKeepsPipes"):
             r = tlc.model_check("Resources", cfg_text=core.set_deviations(cfg_text, [dev]), expect_ok=False, coverage=False, timeout=600)
             selftest[dev] = r["errors"][:1]
         res.coverage["deviation_selftest"] = selftest
@@ -106,7 +112,7 @@ def run(tier, seed, replay=None):
     cov = {
         "evaluations": len(out),
         "distinct_nontrivial": len({t["src"] for t in out if t["scn"]["fault"] != "none"}),
-        "rule": "one case = a pipeline shape (1-3 stages, each an external process or a callable alias; output redirect on the last stage or none; run bare, as ![], $[], $(), !() ended or !() lazily, or started in the background with a trailing &) with one fault injected by construction of the command (redirect target unopenable, input file missing, command not found at stage i, alias raising at stage i, consumer exiting after one byte while the producer writes 3 MB) executed 3 (thorough: also 12) times after one unmeasured warm-up in a loaded session; before and after (settling up to 3 s) the harness snapshots /proc/self/fd with link targets, live threads, /proc/self/task/*/children, cwd, identity of sys.std*, handlers of INT/TSTP/QUIT/WINCH, os.environ and the detyped session environment, and finally sends itself SIGINT (KeyboardInterrupt must be raised); non-trivial = a fault is injected; distinct by command text",
+        "rule": "one case = a pipeline shape (1-3 stages, each an external process or a callable alias; output redirect (>, >>, 2>, a>, e>) on the last stage or none; the first stage reading a real input file or not; run bare, as ![], $[], $(), !() ended or !() lazily, or started in the background with a trailing &) with one fault injected by construction of the command (redirect target unopenable, input file missing, command not found at stage i, alias raising at stage i, consumer exiting after one byte while the producer writes 3 MB) executed 3 (thorough: also 12) times after one unmeasured warm-up in a loaded session; before and after (settling up to 3 s) the harness snapshots /proc/self/fd with link targets, live threads, /proc/self/task/*/children, cwd, identity of sys.std*, handlers of INT/TSTP/QUIT/WINCH, os.environ and the detyped session environment, and finally sends itself SIGINT (KeyboardInterrupt must be raised); non-trivial = a fault is injected; distinct by command text",
         "samples": [{"src": t["src"], "fault": t["scn"]["fault"], "clean": t["steps"][0]["obs"]["clean"]} for t in out[-3:]],
         "states": mc.get("distinct", 1),
         "transitions": mc.get("states", 1),
